@@ -160,3 +160,4 @@ def count(name, lines, ib, stats, meta):
                 last = t
             else:
                 stats['distinct'].add(('quiet', b.kv.get('enum', '').split('@')[0], b.kv.get('empty'), b.kv.get('allc')))
+EXPLORE = dict(skip_ops=('set_map', 'set_sess', 'set_enum', 'band_set'), ops=('flow', 'tick', 'adv', 'st_add', 'st_complete', 'st_remove', 'st_clear', 'band_hello', 'band_choose', 'band_update', 'band_do_hello', 'map_charge', 'map_touch'), mtu=False, oracle=False, num={'adv': {1: (0, 70000)}})
